@@ -568,3 +568,63 @@ Proof.
   change (map v_op ex_vals) with [0; 1; 2; 3].
   repeat constructor; cbn [In]; intros H; repeat (destruct H as [H|H]; [discriminate H|]); exact H.
 Qed.
+
+(* ------------------------------------------------------------------ a node's life *)
+
+Section NodeProofs.
+  Variable interp : header -> world -> txd -> list op * Z * Z * bool.
+
+  Lemma local_answer_no_block im mem e (nd : node mem) q outs :
+    block_outs (local_answer interp im mem e nd q :: outs) = block_outs outs.
+  Proof.
+    unfold local_answer. destruct q as [ver t|t|t]; [|reflexivity|reflexivity].
+    destruct (nth_error (nd_old mem nd ++ [nd_cur mem nd]) ver); reflexivity.
+  Qed.
+
+  (* the blocks of a life come out as the bare chain of its blocks does: local requests, whatever they leave in the
+     process' memory, and restarts are erasable *)
+  Lemma node_run_blocks im mem serve after_block boot ef l : forall (nd : node mem),
+    let r := node_run interp im mem serve after_block boot ef nd l in
+    let c := exec_chain interp im ef (nd_n mem nd) (nd_cur mem nd) (blocks_of l) in
+    nd_cur mem (fst r) = fst c /\ block_outs (snd r) = snd c.
+  Proof.
+    induction l as [|ev l IH]; intros nd; cbn [node_run blocks_of exec_chain].
+    - split; reflexivity.
+    - destruct ev as [b|q|].
+      + cbn [exec_chain].
+        destruct (exec_block interp im (ef (nd_n mem nd)) (nd_cur mem nd) b) as [[s1 rs] vu].
+        specialize (IH (mkNode mem (nd_old mem nd ++ [nd_cur mem nd]) s1 (after_block (nd_mem mem nd) b) (S (nd_n mem nd)))).
+        cbv zeta in IH. cbn [nd_n nd_cur] in IH.
+        destruct (node_run interp im mem serve after_block boot ef
+                    (mkNode mem (nd_old mem nd ++ [nd_cur mem nd]) s1 (after_block (nd_mem mem nd) b) (S (nd_n mem nd))) l) as [nd' outs].
+        destruct (exec_chain interp im ef (S (nd_n mem nd)) s1 (blocks_of l)) as [s2 out].
+        cbn [fst snd block_outs] in *. destruct IH as [A B]. split; [exact A|]. rewrite B. reflexivity.
+      + specialize (IH (mkNode mem (nd_old mem nd) (nd_cur mem nd) (serve (nd_mem mem nd) q) (nd_n mem nd))).
+        cbv zeta in IH. cbn [nd_n nd_cur] in IH.
+        destruct (node_run interp im mem serve after_block boot ef
+                    (mkNode mem (nd_old mem nd) (nd_cur mem nd) (serve (nd_mem mem nd) q) (nd_n mem nd)) l) as [nd' outs].
+        cbn [fst snd] in *. rewrite local_answer_no_block. exact IH.
+      + specialize (IH (mkNode mem (nd_old mem nd) (nd_cur mem nd) boot (nd_n mem nd))).
+        cbv zeta in IH. cbn [nd_n nd_cur] in IH.
+        destruct (node_run interp im mem serve after_block boot ef
+                    (mkNode mem (nd_old mem nd) (nd_cur mem nd) boot (nd_n mem nd)) l) as [nd' outs].
+        cbn [fst snd block_outs] in *. exact IH.
+  Qed.
+
+  (* two nodes — other memory contents and other ways of using it, other local requests in other places, other
+     restarts, other ambient conditions for every block — that execute the same blocks from the same state *)
+  Lemma node_lives_agree mem1 mem2 serve1 serve2 ab1 ab2 boot1 boot2 ef1 ef2 l1 l2
+      (nd1 : node mem1) (nd2 : node mem2) :
+    (forall n, enum_ok (ef1 n)) -> (forall n, enum_ok (ef2 n)) ->
+    nd_cur mem1 nd1 = nd_cur mem2 nd2 -> nd_n mem1 nd1 = nd_n mem2 nd2 -> blocks_of l1 = blocks_of l2 ->
+    let r1 := node_run interp impl_head mem1 serve1 ab1 boot1 ef1 nd1 l1 in
+    let r2 := node_run interp impl_head mem2 serve2 ab2 boot2 ef2 nd2 l2 in
+    nd_cur mem1 (fst r1) = nd_cur mem2 (fst r2) /\ block_outs (snd r1) = block_outs (snd r2).
+  Proof.
+    intros H1 H2 Ec En Eb. cbv zeta.
+    destruct (node_run_blocks impl_head mem1 serve1 ab1 boot1 ef1 l1 nd1) as [A1 B1].
+    destruct (node_run_blocks impl_head mem2 serve2 ab2 boot2 ef2 l2 nd2) as [A2 B2].
+    rewrite A1, A2, B1, B2, Ec, En, Eb.
+    rewrite (exec_chain_env_independent interp ef1 ef2 H1 H2). split; reflexivity.
+  Qed.
+End NodeProofs.
